@@ -23,6 +23,9 @@ Driver for the summary aggregation model (state: program folders + the two summa
   batches <n>                        -> [5,5,2] [[0,1,2,3,4],[5,...],...]
   parse <name>                       -> <program> <simulation> <ts01><emis01><est01><rep01><kept01> | none ...
   ord <y> <m> <d>                    -> days since 1970-01-01
+  resetp <start> <end> <kNum> <kDen> / setrunp ...   like reset / setrun, the years computed by the model
+                                     (`yearsOf`) from the period [y,m,d] [y,m,d]                      -> ok
+  years <start> <end>                -> [years of the period] [the planner's whole-year list]
   setrun <years> <kNum> <kDen>       next run of a history: new years / k, the folder state is kept   -> ok
   initout                            `initialize_outputs`: the folder state is cleared (clearFolder)  -> ok
   wsim <prog> <sim> <tsRows> <emisRows> <estRows|-> <repRows|->   what (prog, sim) writes          -> ok
@@ -152,6 +155,19 @@ def step (s : DSt) (toks : List String) : DSt × String :=
     match natList? ys, int? kn, nat? kd with
     | some ys, some kn, some kd => ({ years := ys, k := (kn : Rat) / (kd : Rat) }, "ok")
     | _, _, _ => (s, "bad-op")
+  | ["resetp", d1, d2, kn, kd] =>
+    match date? d1, date? d2, int? kn, nat? kd with
+    | some (some a), some (some b), some kn, some kd => ({ years := yearsOf a b, k := (kn : Rat) / (kd : Rat) }, "ok")
+    | _, _, _, _ => (s, "bad-op")
+  | ["setrunp", d1, d2, kn, kd] =>
+    match date? d1, date? d2, int? kn, nat? kd with
+    | some (some a), some (some b), some kn, some kd =>
+      ({ s with years := yearsOf a b, k := (kn : Rat) / (kd : Rat), world := [] }, "ok")
+    | _, _, _, _ => (s, "bad-op")
+  | ["years", d1, d2] =>
+    match date? d1, date? d2 with
+    | some (some a), some (some b) => (s, showList toString (yearsOf a b) ++ " " ++ showList toString (plannerYears a b))
+    | _, _ => (s, "bad-op")
   | ["setrun", ys, kn, kd] =>
     match natList? ys, int? kn, nat? kd with
     | some ys, some kn, some kd => ({ s with years := ys, k := (kn : Rat) / (kd : Rat), world := [] }, "ok")
